@@ -54,6 +54,21 @@ class _NdarrayCtor(metaclass=_NdarrayMeta):
         return _obj_fill(shape, 0)
 
 
+class _ErrState:
+    def __init__(self, real, ignore):
+        self.real, self.ignore = real, ignore
+
+    def __enter__(self):
+        if self.ignore:
+            sym._DIV_IGNORE += 1
+        return self.real.__enter__()
+
+    def __exit__(self, *a):
+        if self.ignore:
+            sym._DIV_IGNORE -= 1
+        return self.real.__exit__(*a)
+
+
 class NpShim:
     """Stands for the ``np`` name inside one flodym module."""
 
@@ -61,6 +76,14 @@ class NpShim:
         self._f64obj = float64_as_object
         self._allclose = allclose
         self._cache = {}
+
+    def errstate(self, **kw):
+        """np.errstate(...) entered by the code under analysis: with divide / invalid / all = "ignore" the code handles zero
+        divisors itself (usually with np.where around the quotient), so divisions inside the block do not assume their divisor
+        non-zero: the quotient carries the not-a-number flag where the divisor is zero"""
+        ign = any(kw.get(k) == "ignore" for k in ("all", "divide", "invalid"))
+        USED.add("np.errstate")
+        return _ErrState(np.errstate(**kw), ign)
 
     # -- buffers: float64 buffers cannot hold terms
     def zeros(self, shape, dtype=None, **k):
@@ -178,6 +201,24 @@ class NpShim:
             return sym.ctx().branch(z3.And(*conj)) if conj else True
         return np.allclose(np.asarray(a, dtype=float), np.asarray(b, dtype=float), rtol=rtol, atol=atol, equal_nan=equal_nan)
 
+    def isclose(self, a, b, rtol=1e-05, atol=1e-08, equal_nan=False):
+        """np.isclose by numpy's definition, entry by entry, as merged terms: |a - b| <= atol + rtol * |b| (NaN flags: never
+        close unless equal_nan and both NaN)"""
+        if _has_sym(a) or _has_sym(b):
+            USED.add("np.isclose (merged)")
+            A, B = np.broadcast_arrays(np.asarray(a, dtype=object), np.asarray(b, dtype=object))
+            out = np.empty(A.shape, dtype=object)
+            for idx in np.ndindex(*A.shape):
+                x, y = sym._sr(A[idx]), sym._sr(B[idx])
+                t = (abs(x - y) <= SymReal.lit(Fraction(atol)) + SymReal.lit(Fraction(rtol)) * abs(y)).t
+                if x.nan is not None or y.nan is not None:
+                    nx = x.nan if x.nan is not None else z3.BoolVal(False)
+                    ny = y.nan if y.nan is not None else z3.BoolVal(False)
+                    t = z3.If(z3.Or(nx, ny), z3.And(nx, ny) if equal_nan else z3.BoolVal(False), t)
+                out[idx] = SymBool(t, nl=x.nl or y.nl)
+            return out.view(SymArr) if out.shape else out[()]
+        return np.isclose(a, b, rtol=rtol, atol=atol, equal_nan=equal_nan)
+
     def clip(self, a, a_min=None, a_max=None, out=None, **k):
         if _has_sym(a) or _has_sym(a_min) or _has_sym(a_max):
             USED.add("np.clip (merged)")
@@ -238,7 +279,7 @@ class NpShim:
     def nan_to_num(self, x, copy=True, nan=0.0, posinf=None, neginf=None):
         """np.nan_to_num on symbolic reals: an entry whose NaN flag holds becomes `nan` (default 0.0); infinities do not exist
         in the exact-real model.  copy=False writes into x, as numpy does for float arrays."""
-        if isinstance(x, np.ndarray) and x.dtype == object and _has_sym(x):
+        if isinstance(x, np.ndarray) and x.dtype == object:
             USED.add("np.nan_to_num")
             out = x.copy() if copy else x
             for idx in np.ndindex(*x.shape):
@@ -246,6 +287,10 @@ class NpShim:
                 if isinstance(v, SymReal) and v.nan is not None:
                     r = sym._sr(nan)
                     out[idx] = SymReal(z3.If(v.nan, r.t, v.t), nl=v.nl)
+                elif v is None or isinstance(v, (float, np.floating)):
+                    # a concrete entry of the object buffer: numpy's own rule (None is what an object column holds where the
+                    # float64 column holds NaN)
+                    out[idx] = float(np.nan_to_num(float("nan") if v is None else float(v), nan=nan, posinf=posinf, neginf=neginf))
             return out
         return np.nan_to_num(x, copy=copy, nan=nan, posinf=posinf, neginf=neginf)
 
